@@ -392,6 +392,13 @@ def t_sequential(n):
 	return sh
 
 
+def violation_key(v):
+	# with >= 2 futures finished before as_completed() is entered, their yield order is the iteration order of a set of Future objects
+	# (memory addresses) - not owned by the harness; prefer counterexamples whose replay is deterministic
+	from mc.core import jdump
+	return (v['case'].get('pre_completed', 0) > 1, len(jdump(v['case'])))
+
+
 def finalize(agg, tier):
 	for c in ('orders_differing_from_submission_order', 'last_submitted_finishes_first', 'runs_with_pre_completed_futures', 'faults_raised',
 	          'fault_completes_first', 'fault_completes_last'):
